@@ -183,7 +183,20 @@ pub fn panic_class(msg: &str) -> String {
     if let Some(p) = msg.rfind(" @ ") {
         let loc = &msg[p + 3..];
         let short = loc.rsplit("/repo/").next().unwrap_or(loc);
-        let head: String = msg[..p].chars().take(60).collect();
+        // numbers in the message vary from input to input: normalise them
+        let mut head = String::new();
+        let mut in_num = false;
+        for ch in msg[..p].chars().take(70) {
+            if ch.is_ascii_digit() {
+                if !in_num {
+                    head.push('#');
+                }
+                in_num = true;
+            } else {
+                in_num = false;
+                head.push(ch);
+            }
+        }
         format!("{} @ {}", head, short)
     } else {
         msg.chars().take(80).collect()
